@@ -106,12 +106,12 @@ pub fn rand_ukey(rng: &mut Rng) -> String {
     if rng.chance(1, 2) { rng.pick(&["ca", "nu", "hc", "co", "kn", "fw", "1a", "kb", "kc", "kh", "kk", "va", "ka", "ks"]).to_string() } else { format!("{}{}", word(rng, ALNUM, 1, 1), word(rng, ALPHA, 1, 1)) }
 }
 pub fn rand_utype(rng: &mut Rng) -> String {
-    if rng.chance(1, 15) { return rng.pick(&["yes", "no", "false", "YES", "standard", "traditional", "posix", "root", "und"]).to_string(); }
+    if rng.chance(1, 15) { return rng.pick(&["yes", "non", "false", "YES", "standard", "traditional", "posix", "root", "und"]).to_string(); }   // ("no" has the shape of a KEY: two keywords `no` in one body are not an order-insensitive pair)
     if rng.chance(1, 12) { "true".into() } else if rng.chance(1, 25) { rng.pick(&["truex", "TrueType", "truely", "tru", "true1", "xtrue"]).to_string() } else if rng.chance(1, 3) { rng.pick(&["buddhist", "h12", "h23", "latn", "arab", "phonebk", "islamic", "civil"]).to_string() } else { word(rng, ALNUM, 3, 8) }
 }
 pub fn rand_tkey(rng: &mut Rng) -> String { format!("{}{}", word(rng, ALPHA, 1, 1), word(rng, DIGIT, 1, 1)) }
 pub fn rand_tvalue(rng: &mut Rng) -> String {
-    if rng.chance(1, 15) { return rng.pick(&["yes", "no", "false", "YES", "standard", "posix", "root", "und"]).to_string(); }
+    if rng.chance(1, 15) { return rng.pick(&["yes", "non", "false", "YES", "standard", "posix", "root", "und"]).to_string(); }
     if rng.chance(1, 12) { "true".into() } else if rng.chance(1, 25) { rng.pick(&["truex", "TrueType", "truely", "tru", "true1", "xtrue"]).to_string() } else if rng.chance(1, 3) { rng.pick(&["hybrid", "ungegn", "names", "prprname", "2007", "bgn"]).to_string() } else { word(rng, ALNUM, 3, 8) }
 }
 pub fn rand_priv(rng: &mut Rng) -> String { word(rng, ALNUM, 1, 8) }
